@@ -157,7 +157,11 @@ def run_case(case):
         c.check(bool(np.all(np.diag(W) > 0)), "positive_diagonal", lambda: f"diagonal {np.diag(W).tolist()}", tags)
         Wref = np.linalg.cholesky(np.linalg.inv(Cf))
         c.close(W, Wref, "factor", "weights vs Cholesky factor of the inverse covariance (from the exact covariance)", tags, rtol=1e-9 * cond, scale=float(np.abs(Wref).max()), kappa=64 * cond)
-        Y = np.asarray(m.transform(X.copy()), float)
+        Xt = X.copy()
+        Y = np.asarray(m.transform(Xt), float)
+        Y2 = np.asarray(m.transform(Xt), float)
+        c.check(np.array_equal(Xt, X), "transform_pure", "Whitening.transform modified its input array", tags)
+        c.check(np.array_equal(Y, Y2), "transform_pure", "transforming the same array twice gives different results", tags)
         c.close(Y.mean(axis=0), np.zeros(D), "whitening_identity", "mean of the transformed training data", tags, atol=1e-9 * cond)
         c.close(np.cov(Y.T), np.eye(D), "whitening_identity", "covariance of the transformed training data", tags, rtol=1e-9 * cond, atol=1e-9 * cond)
         return c.result(nontrivial=isinstance(case["kind"], list) or case["order"] != "given", sig="wh|%s|%s|%s|%s|%s" % (case["data"], case["kind"], case["pinv"], case["order"], case.get("big")))
@@ -187,7 +191,10 @@ def run_case(case):
         # depends only on the partition: the reference is computed from the partition alone
         c.close(W, Wref, "factor", f"weights (labels {y}) vs Cholesky factor of inv(S_w / K) of the partition", tags, rtol=1e-9 * cond, scale=float(np.abs(Wref).max()), kappa=64 * cond)
         # identity on the library's own transform output
-        Y = np.array([np.asarray(v, float) for v in m.transform([r.copy() for r in X])])
+        rows_in = [r.copy() for r in X]
+        Y = np.array([np.asarray(v, float) for v in m.transform(rows_in)])
+        Yb = np.array([np.asarray(v, float) for v in m.transform(rows_in)])
+        c.check(all(np.array_equal(a_, b_) for a_, b_ in zip(rows_in, X)) and np.array_equal(Y, Yb), "transform_pure", "WCCN.transform modified its input or is not repeatable", tags)
         Sy = np.zeros((D, D))
         for k in sorted(set(part)):
             pts = Y[[i for i in range(n) if part[i] == k]]
